@@ -40,6 +40,9 @@ type cliScript struct {
 	OutFile       bool     `json:"out_file"`
 	StaleOut      bool     `json:"stale_out_file"`  // the -o file exists before the run
 	LongLineBytes int      `json:"long_line_bytes"` // >0: the last query carries a string literal this long
+	// RelName (transport "file"): the script is passed under this bare file
+	// name, relative to the working directory of the command
+	RelName string `json:"rel_name,omitempty"`
 	// DirAt >= 0 (transport "files" only): a directory is passed as one more
 	// input after that many files; reading it fails
 	DirAt *int `json:"dir_at,omitempty"`
@@ -303,8 +306,14 @@ func runCLI(s *cliScript, input string) (cliRun, error) {
 	switch s.Transport {
 	case "file":
 		p := filepath.Join(dir, "in?.pql")
+		if s.RelName != "" {
+			p = filepath.Join(dir, s.RelName)
+		}
 		os.WriteFile(p, []byte(input), 0o644)
 		os.WriteFile(filepath.Join(dir, "in1.pql"), []byte("DECOY | count;\n"), 0o644)
+		if s.RelName != "" {
+			p = s.RelName
+		}
 		args = append(args, p)
 	case "files", "files-with-stdin":
 		pieces := s.pieces(input)
@@ -355,6 +364,7 @@ func runCLI(s *cliScript, input string) (cliRun, error) {
 	ctx, cancel := context.WithTimeout(context.Background(), 60*time.Second)
 	defer cancel()
 	cmd := exec.CommandContext(ctx, bin, args...)
+	cmd.Dir = dir
 	cmd.Stdin = strings.NewReader(stdin)
 	var so, se bytes.Buffer
 	cmd.Stdout = &so
@@ -578,6 +588,13 @@ func TestC16Scripts(t *testing.T) {
 		s.Cuts = []int{rapid.IntRange(0, 100000).Draw(rt, "cut1"), rapid.IntRange(0, 100000).Draw(rt, "cut2")}
 		s.OutFile = rapid.IntRange(0, 3).Draw(rt, "outfile") == 0
 		s.StaleOut = s.OutFile && rapid.Bool().Draw(rt, "staleout")
+		if s.Transport == "file" && rapid.IntRange(0, 2).Draw(rt, "relname") == 0 {
+			// a file is a file whatever it is called
+			s.RelName = rapid.SampledFrom([]string{"version", "help", "completion", "query", "pql", "run", "o", "out", "compile", "fmt", "x.sql", "-o.pql", "--", "stdin", "true", "1"}).Draw(rt, "relnamev")
+			if strings.HasPrefix(s.RelName, "-") {
+				s.RelName = "./" + s.RelName
+			}
+		}
 		if s.Transport == "files" && rapid.IntRange(0, 5).Draw(rt, "dirarg") == 0 {
 			at := rapid.IntRange(0, 3).Draw(rt, "dirat")
 			s.DirAt = &at
